@@ -90,7 +90,9 @@ func Lint(cfg *Config) []string {
 						// values of backend maps must be proxies
 						if strings.Contains(l[1], "req.backend") || strings.Contains(l[1], "req.hostbackend") || strings.Contains(l[1], "req.defaultbackend") {
 							for _, kv := range ReadMap(file).Entries {
-								if !cfg.HasBackend(kv[1]) {
+								// a key without value (redirect-only path of the default host) is legal: the lookup
+								// yields an empty name and the dynamic use_backend rule is skipped
+								if kv[1] != "" && !cfg.HasBackend(kv[1]) {
 									probs = append(probs, fmt.Sprintf("dangling-map-value:%s:%s", sec.Name, kv[1]))
 								}
 							}
